@@ -48,6 +48,7 @@ PREFIXES = [
     '@import ', '@import "x"', '@import url(x) ', '@namespace ', '@namespace p ', '@variables ', '@variables{', '@variables{a:', '@font-face{',
     '@font-face{src:', '@x ', '@x{', '@x y{a{', '/*', 'a{/*', '<!--', '-->', 'a{}', 'a{b:c}', 'a,', 'a>', 'p|', '*|', 'a{b:c}@import "x";',
     '@namespace p "u";p|a', '@media print{@media screen{', '@media print{@page{', 'a{b:c}<!--', '@import "x";<!--',
+    '@variables{x:1;/*c*/', '@variables{x:1;', 'a|*', '*|*', '@namespace p "u";p|*', 'a{color:', 'a{width:', 'a{font-family:', 'a{content:', 'a{background:',
 ]  # fmt: skip
 TOKENS = [
     'x', '-x', '\\41 ', 'é', 'f(', 'url(', 'url(a)', 'url("a")', '"s"', "'s'", '"s', "'s", '1', '-1', '+1', '.5', '1px', '1e3', '50%', '#abc',
@@ -55,6 +56,8 @@ TOKENS = [
     '~=', '|=', '^=', '$=', '*=', '<!--', '-->', ' ', '\n', '/*c*/', '/*', '{', '}', '(', ')', '[', ']', ':', ';', ',', '.', '+', '>', '~',
     '*', '=', '!', '/', '%', '&', '<', '-', '|', '^', '$', '?', '\\', '\x00', '\x7f', '﻿', '!important', 'and', 'not(', 'var(', 'rgb(',
     'hsl(', 'calc(', 'progid:', 'expression(', '"\\', 'important', 'url( ', 'only', 'all', 'x:y', 'x|y',
+    '\\a ', '1\\a x', '#fff\\a ', '"\\AA "', '|*', '*|*', 'a|*|*', '||', '\\0 ', '\\d ', 'url(\\a )', '"http://[x"', 'url(http://[x)',
+    '1px\\9 ', 'x\\a', '-\\a ', '@\\a ', '#\\a ', 'f\\a (', 'U+\\a ', '"\\a "', "'\\d \\a '", '\\', 'x\\\n',
 ]  # fmt: skip
 ENDINGS = ['', ';', '}', ' x', '{', ')', ';}', '{}', ' y{z:1}']
 SETTINGS = [(True, True), (True, False), (False, True), (False, False)]
@@ -75,8 +78,18 @@ class Monitor:
         if not self.meter.active:
             self.meter.install()
 
-    def features(self, text):
-        return []
+    @staticmethod
+    def known_codec(b):
+        import codecs
+
+        from models import css21_detect
+
+        name = css21_detect.detect_final(b)[0]
+        try:
+            codecs.lookup(name)
+            return '\x00' not in name
+        except (LookupError, ValueError):
+            return False
 
     def run(self, text, setting=(True, True), entry='parseString', stream='', features=(), encoding=None, href=None, fetcher=None,
             steps_out=None, cpu=20, check_steps=True):
@@ -139,6 +152,13 @@ class Monitor:
         except UnicodeDecodeError as e:
             if isinstance(text, bytes) and stage == 'parse':
                 ctx.count('bytes.undecodable-raised')
+                return None
+            ctx.violation('exception.' + stage, case, {'tb': core.short_tb(e)}, features=features, site=core.raise_site(e))
+        except (LookupError, ValueError) as e:
+            # bytes whose BOM/@charset names no codec Python knows have no applicable encoding (property: "decodable under
+            # the encoding that applies"); decided independently with the CSS 2.1 detection model
+            if isinstance(text, bytes) and stage == 'parse' and encoding is None and not self.known_codec(text):
+                ctx.count('bytes.no-applicable-encoding')
                 return None
             ctx.violation('exception.' + stage, case, {'tb': core.short_tb(e)}, features=features, site=core.raise_site(e))
         except steps.StepBudgetExceeded as e:
@@ -296,6 +316,12 @@ FAMILIES = {
     'len.nonascii-font': (lambda k: 'a{font-family:' + 'é' * k + ' 1}', 40),
     'len.escaped-font': (lambda k: 'a{font-family:' + '\\e9 ' * k + ' 1}', 40),
     'len.whitespace': (lambda k: 'a{b:c' + ' ' * (k * 50) + '}', 100),
+    'len.string-escapes': (lambda k: 'a{x:"' + '\\AA' * k + '"}', 60),
+    'len.string-escapes-open': (lambda k: 'a{x:"' + '\\AA' * k, 60),
+    'len.string-escapes-content': (lambda k: 'a{content:"' + '\\AA ' * k + '"}', 60),
+    'len.ident-escapes': (lambda k: 'a{x:' + '\\AA ' * k + '}', 60),
+    'len.url-escapes': (lambda k: 'a{x:url(' + '\\AA ' * k + ')}', 60),
+    'len.selector-escapes': (lambda k: '.' + '\\AA ' * k + '{x:1}', 60),
     'len.page-margins': (lambda k: '@page{' + '@top-left{content:"x"}' * k + '}', 60),
     'len.attr': (lambda k: 'a' + '[b=c]' * (k * 3) + '{x:1}', 100),
     'len.variables': (lambda k: '@variables{' + ''.join('v%d:1;' % i for i in range(k * 3)) + '}', 60),
